@@ -59,7 +59,9 @@ func (p Prop[C]) Check(t *testing.T) {
 	st.SetRule(p.Rule)
 	rapid.Check(t, func(rt *rapid.T) {
 		c := p.Gen(rt)
+		done := journal(p.ID, c)
 		nt, labels, f := p.run(c)
+		done()
 		st.Record(c, nt, labels...)
 		if f != nil {
 			if st.IsKnown(f) {
@@ -83,6 +85,32 @@ func (p Prop[C]) Check(t *testing.T) {
 			rt.Fatalf("VIOLATION-CANDIDATE property=%s sig=%s replay=%s\n%s", p.ID, f.Sig, path, f.Detail)
 		}
 	})
+}
+
+// journal writes the case that is about to run to <replay dir>/<ID>-inflight-<shard>.json
+// when VERIF_JOURNAL is set: a panic in a goroutine the code under test spawned
+// cannot be recovered and kills the process; run.py then turns the journal
+// into the replay file of the violation.
+func journal(id string, c any) func() {
+	if os.Getenv("VERIF_JOURNAL") == "" {
+		return func() {}
+	}
+	dir := os.Getenv("VERIF_REPLAY_DIR")
+	if dir == "" {
+		dir = VerifRoot() + "/replays"
+	}
+	_ = os.MkdirAll(dir, 0o755)
+	path := fmt.Sprintf("%s/%s-inflight-%s.json", dir, id, shardName())
+	b, _ := json.Marshal(map[string]any{"property": id, "sig": id + ":process-crash", "detail": "the process died while this case was running", "case": c})
+	_ = os.WriteFile(path, b, 0o644)
+	return func() { _ = os.Remove(path) }
+}
+
+func shardName() string {
+	if s := os.Getenv("VERIF_SHARD"); s != "" {
+		return s
+	}
+	return "0"
 }
 
 // Replay runs the case stored in the file named by VERIF_REPLAY without rapid
